@@ -110,6 +110,7 @@ func c08Lenient(ctx *vkit.Ctx, cs *vkit.Case) {
 			qs = append(qs, q{c.name, cl, cl.Key + " " + cl.Op + " " + cl.Shown})
 		}
 	}
+	liveAnswer := map[string]string{}
 	eval := func(prov string) {
 		for _, qq := range qs {
 			var want []string
@@ -130,6 +131,19 @@ func c08Lenient(ctx *vkit.Ctx, cs *vkit.Case) {
 				outcome = "differ"
 			}
 			ctx.Count("lenient."+qq.class+"."+prov+"."+outcome, 1)
+			// Asserted whatever the values mean: the answer depends only on the current
+			// metadata, not on how the state was reached (live, log replay, snapshot
+			// restore, compression).
+			if err == nil {
+				ans := strings.Join(got, ",")
+				if prov == "live" {
+					liveAnswer[qq.text] = ans
+				} else if la, ok := liveAnswer[qq.text]; ok && la != ans {
+					cs.Fail("VFilter(%q) answered [%s] on the live state and [%s] after %s of the same state (%s values: %v)", qq.text, la, ans, prov, qq.c.Key, c08ValsOf(model, qq.c.Key))
+				} else if ok {
+					ctx.Count("lenient.provenance_agreement_checked", 1)
+				}
+			}
 			// Asserted whatever equality means for these values: `k != lit` is the negation
 			// of `k = lit` (it also matches ids lacking the field), so the two answers
 			// partition the live ids.
@@ -181,6 +195,22 @@ func c08Lenient(ctx *vkit.Ctx, cs *vkit.Case) {
 	}
 	e = open()
 	eval("replay")
+	cs.Op("SaveSnapshot + Close + Open")
+	if err := e.SaveSnapshot(); err != nil {
+		setupErr("SaveSnapshot", err)
+		return
+	}
+	if err := e.Close(); err != nil {
+		setupErr("Close", err)
+	}
+	e = open()
+	eval("snapshot restore")
+	cs.Op("VCompress(f,float16)")
+	if err := e.VCompress("f", distance.Float16); err != nil {
+		setupErr("VCompress", err)
+		return
+	}
+	eval("compression")
 	ctx.Count("lenient.cases", 1)
 }
 
@@ -190,4 +220,14 @@ func c08GoTypes(m map[string]any) string {
 		parts = append(parts, fmt.Sprintf("%s:%T", k, m[k]))
 	}
 	return strings.Join(parts, ",")
+}
+
+func c08ValsOf(model map[string]map[string]any, key string) map[string]any {
+	out := map[string]any{}
+	for id, m := range model {
+		if v, ok := m[key]; ok {
+			out[id] = v
+		}
+	}
+	return out
 }
